@@ -69,6 +69,10 @@ def run(ctx):
     recs = hist.run_histories(ctx, res, 300 if thorough else 50, 10 if thorough else 7, store_kinds=kinds, on_record=on_record)
     recs += hist.run_histories(ctx, res, 80 if thorough else 15, 6, store_kinds=("memory",), on_record=on_record, allow="chain",
                                edit_kinds=["const_arg", "var", "body", "revert", "none", "unrelated_fun", "reorder", "copy"])
+    # directed: kept calls wrapped in a library call that goes on for several lines, edited after the end of the kept call
+    recs += hist.run_histories(ctx, res, 120 if thorough else 40, 4, store_kinds=("memory",), on_record=on_record,
+                               edit_kinds=["wrap_lit", "wrap_lit", "none", "body"],
+                               world_filter=lambda w: any(it.get("wrap") for f in w["funs"] for it in f["items"]))
     if res.disagreements and not res.violations:
         saved = ctx["driver_ok"]
         ctx["driver_ok"] = False
